@@ -546,6 +546,9 @@ impl Prop for C17 {
     }
     2
   }
+  fn cold_subs(&self) -> Vec<(&'static str, i64, i64, fn(i64) -> Vec<i64>)> {
+    vec![("day", 0, crate::model::NDAYS as i64 - 366, |x| vec![x]), ("hour", 0, crate::model::NDAYS as i64 - 366, |x| vec![x, (x * 5).rem_euclid(24)])]
+  }
   fn eval(&self, env: &Env, out: &mut Out, sub: &str, case: &Case) {
     match sub {
       "day" => self.eval_day(env, out, case),
